@@ -95,6 +95,40 @@ theorem control_ok_iff (vc afp : UInt8) (v : Version) (c : Command) (f : Family)
         | error e => simp
         | ok t' => simp
 
+theorem decodeVersion_error {b : UInt8} {e} (h : decodeVersion b = .error e) : e = .version (b &&& 0xF0) := by
+  unfold decodeVersion at h; split at h <;> cases h; rfl
+theorem decodeCommand_error {b : UInt8} {e} (h : decodeCommand b = .error e) : e = .command (b &&& 0x0F) := by
+  unfold decodeCommand at h; repeat' split at h
+  all_goals cases h
+  rfl
+theorem decodeFamily_error {b : UInt8} {e} (h : decodeFamily b = .error e) : e = .addressFamily (b &&& 0xF0) := by
+  unfold decodeFamily at h; repeat' split at h
+  all_goals cases h
+  rfl
+theorem decodeTransport_error {b : UInt8} {e} (h : decodeTransport b = .error e) : e = .protocol (b &&& 0x0F) := by
+  unfold decodeTransport at h; repeat' split at h
+  all_goals cases h
+  rfl
+
+theorem control_error (vc afp : UInt8) (e : ParseError) (h : control vc afp = .error e) :
+    (∃ v, e = .version v) ∨ (∃ c, e = .command c) ∨ (∃ a, e = .addressFamily a) ∨ (∃ p, e = .protocol p) := by
+  unfold control at h
+  cases hv : decodeVersion vc with
+  | error e' => rw [hv] at h; cases h; exact .inl ⟨_, decodeVersion_error hv⟩
+  | ok v =>
+    rw [hv] at h
+    cases hc : decodeCommand vc with
+    | error e' => rw [hc] at h; cases h; exact .inr (.inl ⟨_, decodeCommand_error hc⟩)
+    | ok c =>
+      rw [hc] at h
+      cases hf : decodeFamily afp with
+      | error e' => rw [hf] at h; cases h; exact .inr (.inr (.inl ⟨_, decodeFamily_error hf⟩))
+      | ok f =>
+        rw [hf] at h
+        cases ht : decodeTransport afp with
+        | error e' => rw [ht] at h; cases h; exact .inr (.inr (.inr ⟨_, decodeTransport_error ht⟩))
+        | ok t => rw [ht] at h; cases h
+
 /-! ## address blocks -/
 
 theorem block2 (n : Nat) (s d r : B) (hs : s.length = n) (hd : d.length = n) :
@@ -181,5 +215,127 @@ theorem addrBytes_parseAddresses (f : Family) (bs : B) (h : bs.length = Spec.V2.
     simp only [parseAddresses, Spec.V2.addrBytes]
     rw [FixB.ofList_val (by simp; omega), FixB.ofList_val (by simp; omega)]
     simp
+
+end V2
+
+namespace V2
+
+/-! ## the parser on inputs whose fixed part is complete -/
+
+theorem gate_ok_append {x : B} (ys : B) (h : gate x = .ok ()) : gate (x ++ ys) = .ok () := by
+  rw [gate_ok_iff] at h ⊢
+  obtain ⟨h1, h2⟩ := h
+  refine ⟨?_, by simp; omega⟩
+  rw [List.take_append_of_le_length (by omega)]; exact h1
+
+theorem byteAt_append_of_lt {x : B} (ys : B) {i : Nat} (h : i < x.length) :
+    byteAt (x ++ ys) i = byteAt x i := byteAt_append_left h
+
+/-- What `parse` does once the gate and the control bytes are fine. -/
+theorem parse_eq_body {x : B} {v c f t} (hg : gate x = .ok ())
+    (hc : control (byteAt x 12) (byteAt x 13) = .ok (v, c, f, t)) :
+    parse x = body x v c f t := by
+  simp [parse, hg, hc]
+
+/-- The only source of `Partial` is stage 3. -/
+theorem parse_partial {x : B} {a b : Nat} (h : parse x = .error (.partialHdr a b)) :
+    gate x = .ok () ∧ ∃ v c f t, control (byteAt x 12) (byteAt x 13) = .ok (v, c, f, t) ∧
+      f.size ≤ be16 (byteAt x 14) (byteAt x 15) ∧
+      x.length < 16 + be16 (byteAt x 14) (byteAt x 15) ∧
+      a = x.length - 16 ∧ b = be16 (byteAt x 14) (byteAt x 15) := by
+  unfold parse at h
+  cases hg : gate x with
+  | error e =>
+    rw [hg] at h
+    rcases gate_error_cases x e hg with ⟨rfl, -⟩ | rfl <;> cases h
+  | ok u =>
+    cases u
+    rw [hg] at h
+    refine ⟨rfl, ?_⟩
+    cases hc : control (byteAt x 12) (byteAt x 13) with
+    | error e =>
+      rw [hc] at h
+      simp only at h
+      cases h
+      rcases control_error _ _ _ hc with ⟨v, h⟩ | ⟨v, h⟩ | ⟨v, h⟩ | ⟨v, h⟩ <;> cases h
+    | ok r =>
+      obtain ⟨v, c, f, t⟩ := r
+      rw [hc] at h
+      simp only [body, minLen] at h
+      refine ⟨v, c, f, t, rfl, ?_⟩
+      by_cases h1 : be16 (byteAt x 14) (byteAt x 15) < f.size
+      · simp [h1] at h
+      · by_cases h2 : x.length < 16 + be16 (byteAt x 14) (byteAt x 15)
+        · simp only [h1, h2, if_true, if_false, Except.error.injEq, ParseError.partialHdr.injEq] at h
+          exact ⟨by omega, h2, h.1.symm, h.2.symm⟩
+        · simp [h1, h2] at h
+
+/-- The header value whose bytes are the wire encoding of its own fields. -/
+def encHeader (cmd : Command) (tr : Transport) (addr : Addresses) (rest : B) : Header :=
+  { header := Spec.V2.encode cmd tr addr rest, version := .two, command := cmd,
+    protocol := tr, addresses := addr }
+
+/-- Views of a header that is the wire encoding of its own fields. -/
+theorem views_of_encode (cmd : Command) (tr : Transport) (addr : Addresses) (rest : B) :
+    (encHeader cmd tr addr rest).length = (Spec.V2.addrBytes addr).length + rest.length ∧
+    (encHeader cmd tr addr rest).header.drop 16 = Spec.V2.addrBytes addr ++ rest ∧
+    (encHeader cmd tr addr rest).addressBytes = (if addr.family = .unspec then rest else Spec.V2.addrBytes addr) ∧
+    (encHeader cmd tr addr rest).tlvBytes = (if addr.family = .unspec then [] else rest) := by
+  generalize hh : encHeader cmd tr addr rest = h
+  have haddr : h.addresses = addr := by rw [← hh]; rfl
+  have hpre : (Spec.V2.signature ++ [Spec.V2.versionCommand cmd, Spec.V2.familyTransport addr.family tr] ++
+      Spec.V2.u16be ((Spec.V2.addrBytes addr).length + rest.length)).length = 16 := by
+    simp [Spec.V2.signature, Spec.V2.u16be]
+  have henc : h.header = (Spec.V2.signature ++ [Spec.V2.versionCommand cmd, Spec.V2.familyTransport addr.family tr] ++
+      Spec.V2.u16be ((Spec.V2.addrBytes addr).length + rest.length)) ++ (Spec.V2.addrBytes addr ++ rest) := by
+    rw [← hh]; simp [encHeader, Spec.V2.encode]
+  have hdrop : h.header.drop 16 = Spec.V2.addrBytes addr ++ rest := by
+    rw [henc, drop_len_append hpre]
+  have hlen : h.length = (Spec.V2.addrBytes addr).length + rest.length := by
+    simp [Header.length, minLen, hdrop]
+  have hal := addrBytes_length addr
+  refine ⟨hlen, hdrop, ?_, ?_⟩
+  · simp only [Header.addressBytes, Header.addressBytesEnd, hlen, minLen, Header.addressFamily, haddr]
+    cases addr with
+    | unspec =>
+      simp only [Addresses.family, Family.byteLength, Option.getD_none, Nat.min_self, if_true]
+      rw [henc, take_len_add_append hpre, drop_len_append hpre]
+      simp [Spec.V2.addrBytes]
+    | ipv4 a =>
+      simp only [Addresses.family, Family.byteLength, Option.getD_some, reduceCtorEq, if_false] at hal ⊢
+      simp only [Spec.V2.familySize] at hal
+      rw [Nat.min_eq_left (by omega), henc, ← hal, take_len_add_append hpre, drop_len_append hpre]
+      simp
+    | ipv6 a =>
+      simp only [Addresses.family, Family.byteLength, Option.getD_some, reduceCtorEq, if_false] at hal ⊢
+      simp only [Spec.V2.familySize] at hal
+      rw [Nat.min_eq_left (by omega), henc, ← hal, take_len_add_append hpre, drop_len_append hpre]
+      simp
+    | unix a =>
+      simp only [Addresses.family, Family.byteLength, Option.getD_some, reduceCtorEq, if_false] at hal ⊢
+      simp only [Spec.V2.familySize] at hal
+      rw [Nat.min_eq_left (by omega), henc, ← hal, take_len_add_append hpre, drop_len_append hpre]
+      simp
+  · simp only [Header.tlvBytes, Header.addressBytesEnd, hlen, minLen, Header.addressFamily, haddr]
+    cases addr with
+    | unspec =>
+      simp only [Addresses.family, Family.byteLength, Option.getD_none, Nat.min_self, if_true]
+      rw [← List.drop_drop, hdrop]
+      simp [Spec.V2.addrBytes]
+    | ipv4 a =>
+      simp only [Addresses.family, Family.byteLength, Option.getD_some, reduceCtorEq, if_false] at hal ⊢
+      simp only [Spec.V2.familySize] at hal
+      rw [Nat.min_eq_left (by omega), ← List.drop_drop, hdrop, ← hal]
+      simp
+    | ipv6 a =>
+      simp only [Addresses.family, Family.byteLength, Option.getD_some, reduceCtorEq, if_false] at hal ⊢
+      simp only [Spec.V2.familySize] at hal
+      rw [Nat.min_eq_left (by omega), ← List.drop_drop, hdrop, ← hal]
+      simp
+    | unix a =>
+      simp only [Addresses.family, Family.byteLength, Option.getD_some, reduceCtorEq, if_false] at hal ⊢
+      simp only [Spec.V2.familySize] at hal
+      rw [Nat.min_eq_left (by omega), ← List.drop_drop, hdrop, ← hal]
+      simp
 
 end V2
